@@ -22,6 +22,8 @@ def run(cx):
     cx.rule("C09.R3", "E3", "the tick query is status == Created AND update_time < now - timeout")
     cx.rule("C09.R4", "K1", "redelivery on the strict edge retry_times < max, after retry_times += 1 was stored; otherwise status = Error is stored")
     cx.rule("C09.R5", "K3", "Message.status: Acked only by ack, Completed only by an action on the task, Error only by the tick, Created only at creation and explicit redo")
+    cx.rule("C09.R7", "K3", "a stored message that still waits for its ack is deleted by nobody but the client's explicit rm(id): the only other delete on the messages collection is the clean-up of rows in status Error")
+    who_deletes_messages(cx, "C09.R7")
     cx.rule("C09.R6", "K11", "stored message <-> delivered message conversions agree field by field (same id and content on redelivery)")
     r1(cx)
     r2(cx)
@@ -432,3 +434,43 @@ def r6(cx):
             cx.ob("C09.R6", "%s:%s" % (direction, fld), src == fld,
                   "the %s message takes `%s` from the other side's `%s` (found %s)" % (direction, fld, fld, src), f.loc(aggs[0][0]))
     cx.floor("C09.R6", 28)
+
+
+DELETERS = {
+    # function -> why it may delete message rows
+    "acts::export::executor::message_executor::MessageExecutor::rm": "the client's explicit removal of one message by id",
+    "acts::cache::store::<impl acts::store::store::Store>::clear_error_messages": "clean-up of rows in status Error (given up after max retries)",
+}
+
+
+def who_deletes_messages(cx, rule):
+    """K3 who-may-call: DbCollection::delete on Store::messages()"""
+    m = cx.m
+    pa = Prov(m, "alias")
+    n = 0
+    for q, f in sorted(m.fns.items()):
+        if not q.startswith("acts::") or "::tests::" in q:
+            continue
+        for c in f.calls():
+            if not ((c.callee.get("decl") or "").endswith("DbCollection::delete") or c.q.endswith("DbCollection::delete")):
+                continue
+            recv = pa.root(f, c.args[0]) if c.args else ("?",)
+            if not (recv[0] == "call" and recv[1].endswith("Store::messages")):
+                continue
+            n += 1
+            base = re.sub(r"::\{closure#\d+\}", "", q)
+            ok = base in DELETERS
+            why = DELETERS.get(base, "not among the functions that may delete message rows")
+            if ok and base.endswith("clear_error_messages"):
+                # the rows deleted come from a query on status == Error
+                _M[0] = m
+                conds_, exprs_ = query_shape(m, f)
+                st = [e for e in exprs_ if e[1] == "status"]
+                has_status = len(st) == 1 and st[0][0] == "eq"
+                has_error = has_status and st[0][2][0] == "agg" and st[0][2][2] == "Error" and conds_ == ["and"]
+                ok = has_status and has_error
+                if not ok:
+                    why = "the query that selects the rows no longer says status == Error"
+            cx.ob(rule, "delete:%s" % short_name(base), ok, "`%s` deletes rows of the messages collection: %s" % (short_name(base), why), c.loc,
+                  **({} if ok else {"consequence": "a message that still waits for its ack disappears from the store: the tick stops re-sending it to every channel that has not acked it"}))
+    cx.floor(rule, 2)
